@@ -11,7 +11,10 @@ Key(t, a, v, p) == [kty |-> t, alg |-> a, valid |-> v, private |-> p]
 SetKeys == {[kty |-> "OKP", alg |-> "EdDSA", valid |-> TRUE, private |-> TRUE],
             [kty |-> "OKP", alg |-> NoAlg, valid |-> TRUE, private |-> TRUE],
             [kty |-> "EC", alg |-> "ES512", valid |-> TRUE, private |-> TRUE],
-            [kty |-> "oct", alg |-> "HS512", valid |-> TRUE, private |-> TRUE]}
+            [kty |-> "oct", alg |-> "HS512", valid |-> TRUE, private |-> TRUE],
+            \* a key that PARSES but is structurally invalid, declaring the approved algorithm of its type: loading it fails like validating it
+            [kty |-> "EC", alg |-> "ES512", valid |-> FALSE, private |-> FALSE],
+            [kty |-> "OKP", alg |-> "EdDSA", valid |-> FALSE, private |-> TRUE]}
 Kids == {"k1", "k2", ""}
 WithKid(k, id) == [kty |-> k.kty, alg |-> k.alg, valid |-> k.valid, private |-> k.private, kid |-> id]
 UniqueKids(s) == \A i, j \in 1..Len(s) : (i # j /\ s[i].kid # "") => s[i].kid # s[j].kid
